@@ -99,7 +99,7 @@ VERUS_UNITS["uf_dfir"] = {
     "canaries": [(r"self\.links\[j\] = i;", "self.links[i] = j;", "union"),
                  (r"self\.find\(a\) == self\.find\(b\)", "self.find(a) != self.find(b)", "same_set"),
                  (r"if k == next \{\s*return k;\s*\}", "", "find")],
-    "twins": [],
+    "twins": ["harness::uf_"],
 }
 
 VERUS_UNITS["alg_compose"] = {
@@ -174,9 +174,12 @@ KANI_UNITS["vk_mpsc"] = {
 KANI_UNITS["vk_uf"] = {
     "mode": "dep", "crate": "contracts/kani/vk_uf", "props": ["C17"],
     "gen": [("src/union_find.rs.in", "src/union_find.rs")],
-    "what": "dfir_lang/src/union_find.rs extracted verbatim (whole file); find/union/same_set against an equivalence-closure matrix",
-    "instantiation": "3 slotmap keys",
-    "bounded": {r".*": "3 keys, reachable states after <= 2 unions from empty, recursion unwound 6"},
+    "what": "dfir_lang/src/union_find.rs extracted verbatim (whole file) over an array-backed contract double of slotmap::SecondaryMap; "
+            "find/union/same_set (whatever their implementation) against an equivalence-closure matrix: the bounded twin of the Verus unit uf_dfir",
+    "instantiation": "4 keys",
+    "bounded": {r".*": "4 keys, reachable states after <= 3 unions from empty, recursion unwound 7"},
+    "trusted": ["contracts/kani/vk_uf/shims/slotmap: CONTRACT DOUBLE of slotmap::{Key, SecondaryMap} (array-backed finite map over 4 keys); the real "
+                "SecondaryMap is outside CBMC's reach"],
 }
 
 KANI_UNITS["vk_var"] = {
@@ -262,7 +265,7 @@ PROPS["C07"] = [("verus", "lat_pair"),
                 ("kani", "vk_lat", ["coll3::cartesian_product_is_product"], ("quick",)),
                 ("kani", "vk_lat", ["coll3::cartesian"], ("thorough",))]
 
-PROPS["C17"] = [("verus", "uf_dfir")]
+PROPS["C17"] = [("verus", "uf_dfir"), ("kani", "vk_uf", ["harness::uf_"], ("quick", "thorough"))]
 
 _C36_QUICK = ["harness::run_hooks", "harness::stream_", "harness::release_", "harness::singleton_", "harness::passthrough_",
               "harness::top_level_", "harness::merge_ordered_inline_0_2", "harness::merge_ordered_script_2_2"]
